@@ -18,7 +18,8 @@ CHECKS = {
          "schemas beff prints in flat mode); C02_flat_unsupported_throws — for every tree/environment/state, a successful flat schema() implies no Date, bigint, Map, Set "
          "or typed array at any position the printer visits; C02_refuted_tuple_without_minItems and C02_refuted_never_is_malformed "
          "exhibit the unchanged code's violations. Ties: every emitted schema (flat and contextual) against Model/Schema.v; js_valid "
-         "against python jsonschema on every (emitted schema, document) pair. Outside the two fragments, contextual mode, well-formedness, $ref resolution and the constructs outside the fragment are decided per generated "
+         "against python jsonschema on every (emitted schema, document) pair. 'Every emitted $ref resolves' in contextual mode is the theorem "
+         "C16_every_ref_resolves_in_the_final_export (Props/C16.v). Outside the two fragments, agreement in contextual mode, well-formedness and the constructs outside the fragment are decided per generated "
          "(type, document) by python jsonschema on the implementation's schemas (search).",
          "Contextual mode, intersections, tuples, dispatch nodes, patterns and formats are not proved (refuted where "
          "false, searched elsewhere); python jsonschema is the oracle for Draft 2020-12; flat schemas of recursive types are outside "
@@ -94,7 +95,9 @@ CHECKS = {
  "C01": ("Theorem C01_printed_validator_means_the_IR (Model/Printer.v = print_runtype, Model/Validate.v, Model/Ir.v): for every IR type, "
          "named environment, value and fuels at which both evaluations end, the validator tree the printer emits answers exactly "
          "rmember (membership of the IR type under beff's conventions), for every tree the printer builds structurally — all "
-         "constructors except template-literal patterns, intersections, tuples and the two dispatch forms of unions; the two dispatch "
+         "constructors except template-literal patterns and the two dispatch forms of unions; tuples are covered when their prefix "
+         "elements reject undefined and intersections when their members accept objects only (both read off the printed trees and, for "
+         "named members, the printed environment: the two listed findings live exactly outside these side conditions); the two dispatch "
          "forms are proved to accept exactly what the plain union of their members accepts (C01_literal_set_dispatch_is_union, "
          "C01_discriminator_dispatch_is_union), and for unions of literals the link to the IR is closed: whenever the printer emits one "
          "literal-set node for a union (through references, nested unions and de-duplication) that node answers what the IR union "
@@ -102,7 +105,8 @@ CHECKS = {
          "The printer model is tied to printer.rs by comparing its output on the compiler's own "
          "IR with the tree dumped from the emitted module; the frontend (TypeScript -> IR) is not modelled and is judged on generated "
          "programs by a reference membership of the source type and by rmember of the IR in Coq, on type-directed values.",
-         "Partial: template-literal patterns (regex semantics), intersections and tuples (both have known findings) and the link "
+         "Partial: template-literal patterns (regex semantics), tuples with a prefix element that accepts undefined, intersections with a "
+         "member that is not object-only (both have known findings) and the link "
          "'members of a discriminator dispatch node = flattened union' are outside the theorem and covered by the search; object types are read as "
          "'non-null objects' (beff's reading), ${number} as TypeScript's in the reference and as the emitted pattern in rmember."),
  "C05": ("Theorems (Model/Subtype.v = SemTypeOps::is_empty/is_subtype/is_same_type; Model/ListEmpty.v = bdd_every_result, "
@@ -182,12 +186,16 @@ CHECKS = {
          "and every stored definition body equals the one a fresh context prints); C16_print_preserves_context_invariant — a "
          "successful print restores inProgressDefinitions, only adds definitions, never touches one that is in progress, and every "
          "definition it adds is the contextual schema of the named type (or synthetic variant) it is stored under; hash() is proved "
-         "fuel-independent for the synthetic names. Order independence, $ref resolution and 'no definition left unfinished' are "
-         "additionally judged on the implementation over generated histories and their permutations against a fresh-context oracle "
-         "built from newly constructed validators.",
+         "fuel-independent for the synthetic names; C16_every_ref_resolves_in_the_final_export — after any history of successful "
+         "schemaWithContext calls on one context (any validators, fuel, ref template, container key, overrides) nothing is in "
+         "progress and every $ref / discriminator-mapping target of every returned schema and every stored definition is getRef(n) "
+         "of a stored definition (Proofs/C16Refs.v: an invariant through annotate, removeNullUnionBranch, tryMergeAllOfObjectSchemas "
+         "and every schema() clause). Order independence, $ref resolution and 'no definition left unfinished' are additionally judged "
+         "on the implementation over generated histories (with generated templates, container keys, overrides, hostile type names) "
+         "and their permutations against a fresh-context oracle built from newly constructed validators.",
          "The state after a throwing call is not modelled (the model stops there; the implementation is still judged and the known "
-         "finding after_throwing_call is reported); closure of the export under $ref (every reachable name collected) is checked on "
-         "generated histories, not proved; overrides and non-default templates are not generated."),
+         "finding after_throwing_call is reported); order independence of the *set* of exported names is judged on generated "
+         "histories (the theorems give: each stored body is context-independent, and every reference resolves)."),
 }
 
 TECH = "machine-checked proof in Coq over an executable model + differential correspondence + spec-side search"
